@@ -39,14 +39,14 @@ add('C02', 'exploration', 'exhaustive product of missing-key options x present/a
     'Policy order as documented (fallbacks, run original, substitute, else RecordingKeyError); full product on the in-memory cassette, slice on file and S3(fake).')
 
 add('C04', 'model_checking', 'exhaustive fault-placement enumeration vs undecorated twin (sequential) + preemption-bounded schedule exploration of worker-thread programs on the real recorder',
-    'Sequential: every base program (7 letters, length <=2/3) x every single and paired placement of the tolerated faults (key failure, handler failure, '
+    'Sequential: every base program (8 letters incl. a joined worker thread, length <=2/3; quick uses a covering set of 2-letter bases) x every single and paired placement of the tolerated faults (key failure, handler failure, '
     'unserialisable value / failing copy, exception or interrupt in a body, discard/force in a body or between steps) x endings x 23 global variants '
     '(extractor kinds incl. junk, failing save, sampling, copy-on, class-level, subclass, skipped, disabled) is run decorated and undecorated: identical '
     'returned / raised objects, every body exactly once with the identical argument objects, no framework exception into the service, no cassette '
     'traffic when disabled. Threaded: see DESIGN §3 C04.',
     'Twin = same interpreter with identity decorators; in-memory cassette; python -O not considered.')
 add('C05', 'fault_enumeration', 'exhaustive single/pair fault-placement enumeration on the real recorder with a spy cassette vs reference finalisation semantics',
-    'Every base program x every single and paired placement of capture faults, discards, sampling outcomes, ordinary exceptions and interrupts at every '
+    'Every base program (7 letters incl. an interception on a joined worker thread) x every single and paired placement of capture faults, discards, sampling outcomes, ordinary / library-typed exceptions and interrupts at every '
     'step boundary and inside every intercepted body (plus discard/force issued from the metadata extractor) x endings x global variants: the spy '
     'cassette must see create -> exactly one of save/abort, saved iff the reference says every interception was captured and the policy keeps it, the '
     'store must hold exactly the captured interceptions, a fault-free second operation must work, and every stored complete recording is replayed '
@@ -102,7 +102,7 @@ add('C10', 'model_checking', 'exhaustive enumeration of saved sets x queries on 
 
 add('C15', 'model_checking', 'exhaustive call histories on real S3 cassettes over a fake bucket with mutation log + crash-point enumeration after every bucket mutation of every save',
     'Cassette A in all 16 combinations of read_only x transient x key prefix (none, a, ab, a/b) plus a writable neighbour cassette B share one bucket '
-    'pre-loaded with recordings of all prefixes and foreign objects; every history up to depth 3/4 over 10 calls (calls that raise are continued past): '
+    'pre-loaded with recordings of all prefixes and foreign objects; every history up to depth 3/4 over 10 calls (calls that raise are continued past), plus a category that looks like an absolute path, every single rejected put request, and a transient close over 1001 recordings (paged listing / bulk delete): '
     'a read-only cassette never mutates and refuses create/save, every mutated key lies under the cassette\'s own full/ or metadata/ root, closing a '
     'transient writable cassette removes all its own keys and leaves every other object byte-identical, and after EVERY individual bucket mutation of '
     'EVERY save every id any prefix view can list is completely fetchable (recording and metadata).',
@@ -139,15 +139,17 @@ add('C12', 'model_checking', 'stateless exploration of all thread interleavings 
 
 add('C08', 'model_checking', 'stateless exploration of all parent/worker schedules up to a preemption bound of the real Equalizer on a virtual multiprocessing + virtual time layer; real-process conformance in thorough',
     'The real Equalizer code (comparison loop, worker loop, timeout / kill / recycle) runs on scheduler-owned Queue / Event / Process / os.kill / time; every '
-    'behaviour vector over 11 per-recording behaviours (equal, different, three kinds of raise, bare status, worker exits, hangs, answers just after the parent '
-    'gave up, hangs trapping SIGTERM, replay spawning a child) up to length 2 x 12 configurations at preemption bound 2 and length 3 on two configurations '
+    'behaviour vector over 13 per-recording behaviours (equal, different, three kinds of raise, an exception whose __str__ fails, bare status, worker exits, hangs, '
+    'answers just after the parent gave up (killable or not), hangs trapping SIGTERM, replay spawning a child) up to length 2 x 14 configurations (recycle, keep, '
+    'timeouts 0 / 0.5 / 1.5 / 2) at preemption bound 2 and length 3 on two configurations '
     '(thorough: 3 full / 4 reduced, bound 2) is explored under every schedule: one comparison per id in input order, verdict / failure text / attached replay '
     '/ kept results of that id alone; in-process mode agrees; thorough replays 700 late-free vectors on real multiprocessing and compares verdict sequences.',
     'Virtual process = real worker loop on a shallow copy of the Equalizer (fork semantics); zero-time steps, time advances only on an expired parent poll; '
     'killing a polling worker poisons that queue.')
 add('C13', 'model_checking', 'stateless schedule exploration of the real Equalizer on virtual multiprocessing / virtual time with consumer behaviours; real-process runs in thorough',
-    'Every vector over {ok, exit, hang, late answer, hang trapping SIGTERM} up to length 3 (thorough 4) x recycle {1,2,3} x timeout {0,1,3} virtual seconds, '
-    'drained, closed after k items or aborted by a consumer exception after k items (every k), under every schedule up to the preemption bound: every '
+    'Every vector over {ok, exit, hang, late answer (killable or not), hang trapping SIGTERM, failure whose text cannot be built} up to length 3 (thorough 4) x '
+    'recycle {1,2,3} x timeout {0,0.5,1,3} virtual seconds, drained, closed after k items, aborted by a consumer exception after k items or simply dropped after k '
+    'items with the cyclic GC off (every k), under every schedule up to the preemption bound: every '
     'execution terminates (deadlock and step horizon are violations), no virtual process is alive afterwards, each comparison takes <= timeout + 2 virtual '
     'seconds (a dead worker is reported within one poll), no worker serves more replays than the recycle rate and exactly the implied number of workers is '
     'started; thorough adds real-process runs (children gone within 1 s, wall time within timeout + slack).',
